@@ -275,12 +275,18 @@ func VerifC04LargeBatch(h *verifh.H) {
 	ds, err := hub.Dsm.CreateDataset("d", nil)
 	h.Assert(err == nil, "create")
 	n := h.Param("n", 40)
+	// minimal entities (no properties, no references) keep a batch beyond 65536 entities — the
+	// range of the 16-bit in-batch position of the version key — inside Badger's per-transaction
+	// limit (MemTableSize 128 MB: fewer than 209715 writes), so the real store accepts it
+	minimal := h.Param("minimal", 0) == 1
 	bad := h.Choice("bad", 3) // 0: none, 1: the last entity, 2: one in the last tenth
 	var batch []*Entity
 	for i := 0; i < n; i++ {
 		e := NewEntity("ns0:b"+itoa(i), 0)
-		e.Properties["ns0:v"] = "x"
-		e.References["ns0:p1"] = "ns0:hub"
+		if !minimal {
+			e.Properties["ns0:v"] = "x"
+			e.References["ns0:p1"] = "ns0:hub"
+		}
 		batch = append(batch, e)
 	}
 	switch bad {
@@ -301,6 +307,9 @@ func VerifC04LargeBatch(h *verifh.H) {
 			want = n
 		}
 		h.Assert(len(res.Entities) == want && len(ch.Entities) == want, "a rejected batch leaves nothing behind, an accepted one is there whole :: "+when+" listed="+itoa(len(res.Entities))+" changes="+itoa(len(ch.Entities))+" want="+itoa(want))
+		if minimal {
+			return
+		}
 		r, qerr := hub.Store.GetManyRelatedEntitiesBatch([]string{"ns0:hub"}, "ns0:p1", true, []string{"d"}, 0, true)
 		if qerr == nil {
 			h.Assert(len(r.Relations) == want, "relations of a rejected batch are not indexed :: "+when+" got="+itoa(len(r.Relations)))
